@@ -70,11 +70,11 @@ HARNESSES = [
                   {"CHECK": 1, "LOGBS": 2, "BPG": 32768, "DESC": 64, "SBITS": 36, "IPG": 32768},
                   {"CHECK": 2, "LOGBS": 0, "BPG": 8192, "DESC": 32, "SBITS": 32},
                   {"CHECK": 2, "LOGBS": 2, "BPG": 32768, "DESC": 32, "SBITS": 32},
-                  {"CHECK": 2, "LOGBS": 2, "BPG": 32768, "DESC": 64, "SBITS": 36, "_tier": "thorough"},
+                  {"CHECK": 2, "LOGBS": 2, "BPG": 32768, "DESC": 64, "SBITS": 36, "_tier": "thorough", "_backends": ["kissat", "default"]},
                   {"CHECK": 1, "LOGBS": 0, "BPG": 8192, "DESC": 32, "SBITS": 32, "IPG": 2048, "_tier": "thorough"},
                   {"CHECK": 1, "LOGBS": 2, "BPG": 32768, "DESC": 32, "SBITS": 32, "IPG": 32768, "_tier": "thorough"},
                   {"CHECK": 1, "LOGBS": 2, "BPG": 32768, "DESC": 64, "SBITS": 36, "IPG": 8192, "_tier": "thorough"},
-                  {"CHECK": 1, "LOGBS": 0, "BPG": 8192, "DESC": 32, "SBITS": 32, "_tier": "thorough"},
+                  {"CHECK": 1, "LOGBS": 0, "BPG": 8192, "DESC": 32, "SBITS": 32, "IPG": 128, "_tier": "thorough"},
                  ],
          unwind=4, unwindset=NS_UW, witness_per_config=True,
          backends=["default"],
@@ -82,7 +82,7 @@ HARNESSES = [
                "(concrete per query); inode-table size, reserved GDT blocks, sparse_super / sparse_super2 + backup groups: symbolic; "
                "inodes per group symbolic in CHECK 2, concrete per query in CHECK 1; ext2fs_bg_has_super cut to the format rule (decided in C20)"),
     dict(name="newsize_real", src="newsize.c", defs=["REAL_HAS_SUPER"],
-         funcs=["adjust_new_size", "adjust_fs_info", "ext2fs_bg_has_super", "test_root"],
+         funcs=["adjust_new_size", "ext2fs_bg_has_super", "test_root"],
          extra_src=["lib/ext2fs/closefs.c", "lib/ext2fs/blknum.c"],
          configs=[{"CHECK": 2, "LOGBS": 0, "BPG": 8192, "DESC": 32, "SBITS": 24},
                   {"CHECK": 1, "LOGBS": 0, "BPG": 8192, "DESC": 32, "SBITS": 24, "IPG": 8192, "_tier": "thorough"}],
